@@ -2,6 +2,7 @@
 package eng
 
 import (
+	_ "aaverif/eng/imports"
 	_ "aaverif/eng/atest"
 	_ "aaverif/eng/engsim"
 	_ "aaverif/eng/hist"
